@@ -85,6 +85,7 @@ func intersectListList(a, b []any) ([]any, error) { //nolint:unparam
 		for _, v2 := range b {
 			if reflect.DeepEqual(v1, v2) {
 				ret = append(ret, v1)
+				break
 			}
 		}
 	}
